@@ -495,6 +495,8 @@ def param_container_mutations(func: ast.AST, params: List[str]) -> List[Tuple[st
         return None
     out = []
     for n in ast.walk(func):
+        if isinstance(n, ast.Call) and isinstance(n.func, ast.Name) and n.func.id in ("setattr", "delattr") and n.args and isinstance(n.args[0], ast.Name) and n.args[0].id in obj_alias:
+            out.append((f"{n.func.id}() on {obj_alias[n.args[0].id]}", " ".join(ast.unparse(n).split())[:100]))          # an attribute store spelt as a builtin call
         if isinstance(n, ast.Call) and isinstance(n.func, ast.Attribute) and n.func.attr in _MUT_METHODS:
             d = container(n.func.value)
             if d:
